@@ -810,6 +810,12 @@ def gen_trace(rng, check, population, tier, cat):
             if check == 'C15' and c < 0.22:
                 prog.append({'op': 'tz', 'zone': r.choice(ZONES)})
                 continue
+            if check in ('C12', 'C16') and c > 0.955:
+                # the process time zone is ambient state for these two as
+                # well: "same bytes twice" and "depends only on arguments
+                # and the switch" must survive a zone jump between calls
+                prog.append({'op': 'tz', 'zone': r.choice(ZONES)})
+                continue
             if check in ('C16', 'C12', 'C15') and c < (
                     0.30 if check != 'C15' else 0.34) and prog:
                 # caller-side actions on results still held
